@@ -710,6 +710,13 @@ fn c16_pool(tier: Tier, family: usize) -> C16Pool {
                     progs.push(P::Inter(x.clone(), y.clone()));
                 }
             }
+            // complements of unions / intersections (the contrapositive rule sends these into the other arms)
+            for (i, x) in sh.iter().enumerate() {
+                for y in sh.iter().skip(i + 1) {
+                    progs.push(P::Comp(a2(P::Union(x.clone(), y.clone()))));
+                    progs.push(P::Comp(a2(P::Inter(x.clone(), y.clone()))));
+                }
+            }
         }
         // (ii) the level-1 pool
         1 => {
